@@ -26,7 +26,7 @@ CLAIM = (
     "and every batch size, radon_torch, iradon_torch and get_fourier_filter_torch agree with scikit-image's radon(circle=True), "
     "iradon(circle=True) and _get_fourier_filter within float32 tolerance of the output maximum (filter 2e-5, radon 5e-5, iradon 2.5e-4); for the small sizes the comparison runs over the "
     "complete delta basis, which by linearity decides it for every image of that size; batched == per-image, both transforms linear, "
-    "0-degree projection == column sums. Exhaustive lattice exploration is the right level: the property quantifies over sizes/parities/"
+    "0-degree projection == column sums. A call-history part runs every ordered pair (thorough: triple) of filter / iradon / radon calls on a freshly re-imported module and judges the last call (results must not depend on earlier calls), and the number of projection angles straddles powers of two (255/256/257 ...). Exhaustive lattice exploration is the right level: the property quantifies over sizes/parities/"
     "angles/filters where the defects live (even sizes, padded FFT size), and linearity closes the data quantifier."
 )
 NOTE = (
